@@ -342,10 +342,8 @@ func (w *World) finalChecks() {
 						tc.M.Name, n, 3*w.gcInterval+time.Second, w.gcInterval)
 					return
 				}
-				if g := w.metrics.graveyard[tc.M.Name]; g != 0 {
-					w.violate("C08", "graveyard-metric-not-zero", "table %s: GraveyardObjectCount metric is %d after the graveyard drained", tc.M.Name, g)
-					return
-				}
+				// (The GraveyardObjectCount metric is not an oracle: a committing transaction and the
+				// collector report it from different roots and the reports can arrive out of order.)
 			}
 			w.probe("graveyard-drained")
 		}
